@@ -717,7 +717,11 @@ class World(object):
         for sim in self.sims.values():
             for port_triggers in sim.triggers.values():
                 for dest_sim, delay in port_triggers:
-                    dest_sim.triggering_ancestors[sim] = delay
+                    # There may be several triggering connections between
+                    # the same pair of simulators; keep the shortest delay.
+                    min_delay = update_min(dest_sim.triggering_ancestors.get(sim), delay)
+                    if min_delay is not None:
+                        dest_sim.triggering_ancestors[sim] = min_delay
                     dirty.add(dest_sim)
         while dirty:
             sim = dirty.pop()
